@@ -156,3 +156,11 @@ Proof.
   repeat (apply Forall_cons || apply Forall_nil); cbn [fst snd op_api op_ver];
     (split; [reflexivity|split; [wf_solve|vm_compute; reflexivity]]).
 Qed.
+
+(* ---- the synchronisation skeleton the model assumes (which Go critical section each label of Model/ConnMux.v / conn_do of Model/ConnOps.v stands for, conn_assumptions: Model/SkeletonAssumptions.v)
+   holds of /repo's CURRENT source: call/access facts regenerated by harness/cmd/vskel on every run. *)
+From KV Require Model.SkeletonAssumptions Gen.Skeleton Proofs.SkeletonConn.
+Theorem C11_skeleton_assumptions :
+  KV.Model.SkeletonAssumptions.conn_assumptions_hold KV.Gen.Skeleton.calls KV.Gen.Skeleton.accesses = true.
+Proof. exact KV.Proofs.SkeletonConn.conn_skeleton_ok. Qed.
+Print Assumptions C11_skeleton_assumptions.
